@@ -161,9 +161,9 @@ func (g *gen) val(depth int, top bool) Val {
 		// many distinct types, and many operands whose treatment depends on
 		// a per-type answer (SafeValue implementations)
 		switch y := g.r.Intn(100); {
-		case y < 35:
+		case y < 45:
 			return Val{K: "arrn", I: int64(g.r.Intn(1500))}
-		case y < 60:
+		case y < 80:
 			k := g.pick(safeKinds)
 			v := Val{K: k, I: int64(g.r.Intn(300))}
 			if k == "sstr" || k == "sbytes" {
@@ -468,7 +468,11 @@ func (g *gen) op(depth int) Op {
 	}
 	switch k {
 	case "sprint":
-		return Op{K: k, A: g.vals(g.r.Intn(4), depth, true)}
+		n := g.r.Intn(4)
+		if g.typeStorm {
+			n = 3 + g.r.Intn(6)
+		}
+		return Op{K: k, A: g.vals(n, depth, true)}
 	case "sprintf":
 		a := g.vals(g.r.Intn(4), depth, true)
 		return Op{K: k, F: Str(g.format(a)), A: a}
